@@ -279,6 +279,7 @@ func regexpNext(sb *strings.Builder, sl *stringLexer, mode Mode) error {
 		hasSlash := false
 		var deferredErr error // reported only if the bracket expression closes
 		var classErr error    // reported even if the bracket is unmatched
+		classEnd := -1        // offset just after the last character class element
 		// Like Bash, an unmatched "[" is a literal; emit it and reparse
 		// the rest of the pattern.
 		literalBracket := func() error {
@@ -336,8 +337,8 @@ func regexpNext(sb *strings.Builder, sl *stringLexer, mode Mode) error {
 				}
 			case '-':
 				bsb.WriteByte('-')
-				if first {
-					break // a leading '-' is a literal, not a range
+				if first || sl.i-1 == classEnd {
+					break // a '-' at the start or right after a class is a literal, not a range
 				}
 				start := sl.last()
 				end := sl.peekNext()
@@ -381,6 +382,7 @@ func regexpNext(sb *strings.Builder, sl *stringLexer, mode Mode) error {
 					}
 					bsb.WriteString(rest[:n])
 					sl.i += n
+					classEnd = sl.i
 				}
 			default:
 				if filenames && c == '/' {
